@@ -194,4 +194,46 @@ theorem handleRead_request {L : Layout} (wf : WF L) (c : Ctx) (d : Dgram) (hreq 
   unfold handleRead
   rw [take_of_small wf.req_recv hreq.1, unpack_infoReq wf hreq]
 
+/-- answers iff both filters match, for names that fit the packet's name fields -/
+theorem respond_iff_of_fit {L : Layout} (wf : WF L) (c : Ctx) (d : Dgram) (wgf cnf : List Char)
+    (hreq : IsInfoRequest L d.data) (hw : reqWgFilter L d.data = some wgf) (hc : reqCtxFilter L d.data = some cnf)
+    (hfitN : (cstr (utf8Encode c.name)).length ≤ L.nameLen)
+    (hfitW : (cstr (utf8Encode c.workgroup)).length ≤ L.wgLen) :
+    (∃ a out, handleRead L c d = .sent a out) ↔ (Matches wgf c.workgroup ∧ Matches cnf c.name) := by
+  rw [handleRead_request wf c d hreq]
+  unfold handleInfoRequest
+  simp only [Packet.fld]
+  unfold reqWgFilter at hw
+  unfold reqCtxFilter at hc
+  rw [hw]
+  simp only
+  by_cases h1 : globMatch wgf c.workgroup = true
+  · rw [h1]
+    simp only [Bool.not_true, Bool.false_eq_true, if_false]
+    rw [hc]
+    simp only
+    by_cases h2 : globMatch cnf c.name = true
+    · rw [h2]
+      simp only [Bool.not_true, Bool.false_eq_true, if_false]
+      obtain ⟨out, ho⟩ := packResponse_isSome (L := L) d.rid (leNat ((reqFields L d.data).getD 2 []))
+        d.now ((reqFields L d.data).getD 3 []) (utf8Encode c.name) (utf8Encode c.workgroup) c.pid c.port hfitN hfitW
+      rw [ho]
+      simp only
+      constructor
+      · intro _; exact ⟨(globMatch_iff _ _).1 h1, (globMatch_iff _ _).1 h2⟩
+      · intro _; exact ⟨d.addr, out, rfl⟩
+    · have h2' : globMatch cnf c.name = false := by simpa using h2
+      rw [h2']
+      simp only [Bool.not_false, if_true]
+      constructor
+      · rintro ⟨a, out, h⟩; cases h
+      · rintro ⟨_, hm⟩; exact absurd ((globMatch_iff _ _).2 hm) h2
+  · have h1' : globMatch wgf c.workgroup = false := by simpa using h1
+    rw [h1']
+    simp only [Bool.not_false, if_true]
+    constructor
+    · rintro ⟨a, out, h⟩; cases h
+    · rintro ⟨hm, _⟩; exact absurd ((globMatch_iff _ _).2 hm) h1
+
+
 end QmiModel.Discovery
